@@ -45,7 +45,7 @@ def atoms():
     for s in SHAPES:
         out.append(['shape', s])
         out.append(['bcast', s])
-    out += [['raises'], ['even'], ['nonbool']]
+    out += [['raises'], ['even'], ['nonbool'], ['even_named_small'], ['even_named_big']]
     out += [['raises', n] for n in RAISERS]
     return out
 
@@ -94,6 +94,16 @@ def expressions(tier):
     for a in TRI_ATOMS:
         for b in TRI_ATOMS:
             out.append(['multi', a, b])
+    # distinct predicates under one name, together and in both orders, bundled and combined
+    SN = [['even'], ['even_named_small'], ['even_named_big']]
+    for a in SN:
+        for b in SN:
+            if a != b:
+                out.append(['multi', a, b])
+                out.append(['and', a, b])
+                out.append(['or', a, b])
+                out.append(['all', a, b, ['pos']])
+    out.append(['multi', ['even'], ['even_named_small'], ['even_named_big']])
     out.append(['multi', ['pos'], ['finite'], ['val_range', None, 5]])
     out.append(['multi', ['raises'], ['pos'], ['neg']])
     out.append(['multi', ['neg'], ['raises'], ['pos']])
@@ -139,6 +149,11 @@ def build_cond(A, e):
         return A.Condition(lambda v: v % 2 == 0, 'even')
     if h == 'nonbool':
         return A.Condition(lambda v: [v] if v else [], 'truthy')
+    # two further predicates that carry the SAME NAME as 'even' (names are labels for messages, not identities)
+    if h == 'even_named_small':
+        return A.Condition(lambda v: v < 2, 'even')
+    if h == 'even_named_big':
+        return A.Condition(lambda v: v > 1, 'even')
     if h == 'not':
         return ~build_cond(A, e[1])
     if h == 'and':
@@ -210,6 +225,10 @@ def _ev(e, x):
         return x % 2 == 0
     if h == 'nonbool':
         return [x] if x else []
+    if h == 'even_named_small':
+        return x < 2
+    if h == 'even_named_big':
+        return x > 1
     if h == 'not':
         return not _ev(e[1], x)
     if h in ('and', 'all', 'multi'):
@@ -249,7 +268,9 @@ PLACEMENTS = ['top', 'list_elem', 'dict_value', 'optional', 'dc_field']
 def plan(tier, seed):
     n = len(expressions(tier))
     k = 48
-    return [{'i': i, 'n': k} for i in range(min(k, n))]
+    # + one shard that meets the same-named predicates one after the other in ONE process (a name is not an identity: whatever
+    #   is memoised per annotated type - by pane or by typing - must not hand the second one the first one's predicate)
+    return [{'i': i, 'n': k} for i in range(min(k, n))] + [{'samename': True}]
 
 
 def make_type(pane, inner, conds):
@@ -365,8 +386,18 @@ def run_shard(shard, tier):
     res = core.new_result()
     exprs = expressions(tier)
     from pane.convert import make_converter
-    for ei in range(shard['i'], len(exprs), shard['n']):
+    if shard.get('samename'):
+        idx = [i for i, e in enumerate(exprs) if e in (['even'], ['even_named_small'], ['even_named_big'])]
+        todo = idx + idx[::-1]
+        shard = {'i': 0, 'n': 1}
+    else:
+        todo = range(shard['i'], len(exprs), shard['n'])
+    done: t.List[t.Any] = []
+    for ei in todo:
         e = exprs[ei]
+        if shard.get('n') == 1:
+            # (same-name shard) a violation here may need the conditions met before it: carry them in the cell for the replay
+            before = {id(v) for lst in res['violations'].values() for v in lst}
         for iname in inner_types():
             for placement in (PLACEMENTS if iname in ('int', 'float', 'list_int', 'any') else ['top', 'list_elem']):
                 try:
@@ -375,9 +406,16 @@ def run_shard(shard, tier):
                     core.add_violation(res, {'kind': 'oracle_exception', 'exc': type(err).__name__, 'head': e[0]},
                                        f"cell {e} / {iname} / {placement} raised {type(err).__name__}: {core.sstr(err)}",
                                        {'ei': ei, 'e': e, 'inner': iname, 'placement': placement, 'vi': None}, 50)
+        if shard.get('n') == 1:
+            for lst in res['violations'].values():
+                for v in lst:
+                    if id(v) not in before:
+                        v['cell']['prelude'] = list(done)
+            done.append([ei, e])
+            continue
         if ei % 200 < shard['n']:
             make_converter.cache.clear()
-    if shard['i'] == 0:
+    if shard['i'] == 0 and todo.__class__ is range:
         res['samples'].append({'condition': exprs[40], 'inner': 'float', 'placement': 'list_elem', 'grid': [values.expr(v) for v in inner_types()['float'][1]]})
         res['extra']['condition_expressions'] = len(exprs)
     return res
@@ -388,6 +426,14 @@ def replay(cell):
     warnings.simplefilter('ignore')
     res = core.new_result()
     # replay the whole grid for this condition object: history dependence needs the earlier evaluations too
+    for pei, pe in cell.get('prelude') or []:
+        scratch = core.new_result()
+        for iname in inner_types():
+            for placement in (PLACEMENTS if iname in ('int', 'float', 'list_int', 'any') else ['top', 'list_elem']):
+                try:
+                    eval_cell(pane, scratch, pei, pe, iname, placement, 'quick')
+                except Exception:  # noqa
+                    pass
     eval_cell(pane, res, cell['ei'], cell['e'], cell['inner'], cell['placement'], 'quick')
     out = [v for lst in res['violations'].values() for v in lst]
     return [v for v in out if v['cell'].get('vi') == cell.get('vi')] or out
